@@ -293,6 +293,26 @@ func Templates() []Tpl {
 		{"designate-notary", func(w *World) ([]*transaction.Transaction, error) {
 			return one(w.N.CallTx([]neotest.Signer{w.N.Committee}, nativehashes.RoleManagement, "designateAsRole", int64(noderoles.P2PNotary), []any{Acc(4).PublicKey().Bytes()}))
 		}},
+		{"designate-notary+use", func(w *World) ([]*transaction.Transaction, error) {
+			// first use: designate account 4 as notary node; when a notary is designated already: re-designate
+			// account 3 and read the role back through a contract call in the same block
+			cur, _, _ := w.N.BC.GetDesignatedByRole(noderoles.P2PNotary)
+			who := Acc(4)
+			if len(cur) > 0 && cur[0].Equal(Acc(4).PublicKey()) {
+				who = Acc(3)
+			}
+			a, err := w.N.CallTx([]neotest.Signer{w.N.Committee}, nativehashes.RoleManagement, "designateAsRole", int64(noderoles.P2PNotary), []any{who.PublicKey().Bytes()})
+			if err != nil {
+				return nil, err
+			}
+			b, err := w.URun(1, w.UA, []any{
+				[]any{OpCall, nativehashes.RoleManagement.BytesBE(), "getDesignatedByRole", 15, []any{int64(noderoles.P2PNotary), int64(w.N.Height() + 1)}},
+			})
+			if err != nil {
+				return nil, err
+			}
+			return []*transaction.Transaction{a, b}, nil
+		}},
 		{"notary-deposit", func(w *World) ([]*transaction.Transaction, error) {
 			return one(w.N.CallTx(s(1), gasH, "transfer", Acc(1).ScriptHash(), nativehashes.Notary, int64(20*gas), []any{nil, int64(w.N.Height() + 50)}))
 		}},
